@@ -46,10 +46,11 @@ def defs_of(f):
     return d
 
 
-def forward_sinks(db, f, start_local, start_bb):
+def forward_sinks(db, f, start_local, start_bb, call_sink=None):
     """follow the value; return list of sink descriptions"""
     sinks = []
     seen = set()
+    checked_tuples = set()
     work = [start_local]
     while work:
         l = work.pop()
@@ -68,6 +69,11 @@ def forward_sinks(db, f, start_local, start_bb):
                 for k in ("o", "a", "b"):
                     if k in s and isinstance(s[k], dict) and op_local(s[k]) == l:
                         used = True
+                    elif k in s and isinstance(s[k], dict) and l in checked_tuples:
+                        # `_x = move (_t.0)` where _t is the (value, overflowed) pair of checked arithmetic on the value
+                        pl = op_place(s[k])
+                        if pl is not None and pl.get("l") == l and [e[1] for e in pl.get("p", []) if isinstance(e, list)] == ["0"]:
+                            used = True
                 for o in s.get("ops", []):
                     if op_local(o) == l:
                         used = True
@@ -95,6 +101,8 @@ def forward_sinks(db, f, start_local, start_bb):
                 elif r in ("use", "cast", "binop", "unop", "repeat"):
                     if r == "binop" and s["op"] in ("Eq", "Ne", "Lt", "Le", "Gt", "Ge", "Cmp"):
                         continue
+                    if r == "binop" and s["op"].endswith("WithOverflow"):
+                        checked_tuples.add(place_local(d))
                     work.append(place_local(d))
             t = b["t"]
             if t["k"] == "call":
@@ -108,6 +116,8 @@ def forward_sinks(db, f, start_local, start_bb):
                         elif c in ("core::option::Option::<T>::unwrap_or", "core::cmp::Ord::min", "core::cmp::Ord::max",
                                    "core::convert::Into::into", "core::convert::From::from", "core::option::Option::Some"):
                             work.append(place_local(t["d"]))
+                        elif call_sink is not None and call_sink.match(c):
+                            sinks.append(("call", "passed to %s (arg %d)" % (c, ai)))
                         elif (c in db.fns or c in db.trait_impls()) and FILE_DOMAIN_FN.match(c):
                             sinks.append(("call", "passed to %s (arg %d)" % (c, ai)))
                         # foreign calls (formatting, comparisons, indexing...) are not file sinks
